@@ -32,6 +32,8 @@ def _const_env(path):
 
 def check(run):
     P = run.program
+    from ..rules import consts as _consts
+    _consts.check(run, P)
     run.explanation = (
         "F-LIT: the 10 Gauss and 5 triangular tables are extracted from the if-chains of get_gauss_quadratureDG / get_tri_quadratureDG and "
         "checked with exact rational arithmetic on the float literals: counts, positivity, sum of weights, nodes in the domain, barycentric rows "
@@ -511,4 +513,18 @@ def _who_stores_face_areas(run, P):
             else:
                 run.incomplete("F-TABLE/face-area-writers", c, where(f, st), f"{f.name} stores face_areas; it is not one of the writers confirmed for the pinned tree ({sorted(FACE_AREA_WRITERS)})")
     run.floor("F-TABLE/face-area-writers", n, 2)
+    # ... and through the setter: `<grid>.face_areas = v` outside the Grid class caches v as THE face areas
+    for f in P.all_functions():
+        if not f.module.relpath.startswith("uxarray/") or (f.cls is not None and f.cls.name == "Grid"):
+            continue
+        for st in ast.walk(f.node):
+            if isinstance(st, ast.Assign) and any(isinstance(t, ast.Attribute) and t.attr in ("face_areas", "_face_areas") for t in st.targets):
+                c = f"{f.key}:setter[face_areas]"
+                nodes, _ = LocalDefs(f.node).closure(st.value)
+                calls = [x for e in nodes for x in ast.walk(e) if isinstance(x, ast.Call) and (dotted(x.func) or [""])[-1] == "compute_face_areas"]
+                if calls and any(cl.args or cl.keywords for cl in calls):
+                    run.violation("F-TABLE/face-area-writers", c, where(f, st), f"{f.qualname} caches the result of `{norm(calls[0])[:60]}` as the grid's face_areas: after a call with another rule or order "
+                                  "Grid.face_areas no longer equals a fresh default computation")
+                else:
+                    run.incomplete("F-TABLE/face-area-writers", c, where(f, st), f"{f.qualname} assigns the grid's face_areas; it is not one of the writers confirmed for the pinned tree")
 
